@@ -110,4 +110,82 @@ theorem parseCookies_eq (v : Bytes) (hf : v.all isFieldByte = true) : parseCooki
   unfold parseCookies cookiesOf cookiePieces
   exact parseCookiePieces_eq _ 0 (fun p hp => FB.infix hf (splitByte_infix 59 v p hp))
 
+/-! ### several Cookie lines, joined with "; " -/
+
+theorem splitByte_nonempty (c : UInt8) (d : Bytes) : ∃ p ps, splitByte c d = p :: ps := by
+  cases h : splitByte c d with
+  | nil =>
+    exfalso
+    cases d with
+    | nil => simp [splitByte] at h
+    | cons a r =>
+      unfold splitByte at h
+      split at h
+      · simp at h
+      · cases h2 : splitByte c r <;> simp [h2, consHead] at h
+  | cons p ps => exact ⟨p, ps, rfl⟩
+
+theorem splitByte_cons (c x : UInt8) (r : Bytes) :
+    splitByte c (x :: r) = if x = c then [] :: splitByte c r else consHead x (splitByte c r) := by
+  simp [splitByte]
+
+theorem splitByte_append_sep (c : UInt8) : ∀ (a b : Bytes),
+    splitByte c (a ++ c :: b) = splitByte c a ++ splitByte c b
+  | [], b => by simp [splitByte_cons, splitByte]
+  | x :: a, b => by
+    have ih := splitByte_append_sep c a b
+    simp only [List.cons_append]
+    rw [splitByte_cons, splitByte_cons c x a, ih]
+    by_cases hx : x = c
+    · simp only [hx, if_true]; rfl
+    · simp only [hx, if_false]
+      obtain ⟨p, ps, hp⟩ := splitByte_nonempty c a
+      rw [hp]; simp [consHead]
+
+theorem trimOws_cons_sp (p : Bytes) : trimOws (32 :: p) = trimOws p := by
+  unfold trimOws
+  have : isOws 32 = true := by decide
+  simp [List.dropWhile_cons, this]
+
+theorem cookiePieces_join (a x : Bytes) : cookiePieces (a ++ [59, 32] ++ x) = cookiePieces a ++ cookiePieces x := by
+  unfold cookiePieces
+  have e : a ++ [59, 32] ++ x = a ++ 59 :: (32 :: x) := by simp
+  rw [e, splitByte_append_sep]
+  have hsp : (splitByte 59 (32 :: x)).map trimOws = (splitByte 59 x).map trimOws := by
+    rw [splitByte_cons]
+    have : ¬ (32 : UInt8) = 59 := by decide
+    simp only [this, if_false]
+    obtain ⟨p, ps, hp⟩ := splitByte_nonempty 59 x
+    rw [hp]
+    simp [consHead, trimOws_cons_sp]
+  rw [List.map_append, List.filter_append, hsp]
+
+theorem cookiePieces_foldl : ∀ (vs : List Bytes) (v : Bytes),
+    cookiePieces (vs.foldl (fun a x => a ++ [59, 32] ++ x) v) = cookiePieces v ++ vs.flatMap cookiePieces
+  | [], v => by simp
+  | x :: vs, v => by
+    simp only [List.foldl_cons, List.flatMap_cons]
+    rw [cookiePieces_foldl vs, cookiePieces_join, List.append_assoc]
+
+theorem fb_foldl : ∀ (vs : List Bytes) (v : Bytes), v.all isFieldByte = true → (∀ x ∈ vs, x.all isFieldByte = true) →
+    (vs.foldl (fun a x => a ++ [59, 32] ++ x) v).all isFieldByte = true
+  | [], v, hv, _ => hv
+  | x :: vs, v, hv, h => by
+    simp only [List.foldl_cons]
+    apply fb_foldl vs _ _ (fun y hy => h y (by simp [hy]))
+    simp only [List.all_append, hv, h x (by simp), Bool.and_true, Bool.true_and]
+    decide
+
+/-- the cookies parsed from the joined Cookie lines are the pairs of every line, in wire order -/
+theorem cookiesOfHeader_join (vs : List Bytes) (h : ∀ x ∈ vs, x.all isFieldByte = true) :
+    cookiesOfHeader (joinSemi vs) = cookiesOfLines vs := by
+  cases vs with
+  | nil => rfl
+  | cons v vs =>
+    unfold joinSemi cookiesOfHeader cookiesOfLines
+    simp only []
+    rw [parseCookies_eq _ (fb_foldl vs v (h v (by simp)) (fun x hx => h x (by simp [hx])))]
+    unfold cookiesOf
+    rw [cookiePieces_foldl, List.flatMap_cons]
+
 end Huginn.Http1
